@@ -97,6 +97,14 @@ def apply_pre(t, pre):
     the content it denotes is that of the spec (no metadata on the sample axis)"""
     if pre == 'add_empty_md':
         t.add_metadata({str(t.ids()[-1]): {}}, axis='sample')
+    elif pre == 'sibling_renamed':
+        for ax, other in (('observation', 'sample'), ('sample', 'observation')):
+            ids = [str(i) for i in t.ids(axis=ax)]
+            sub = t.filter([str(i) for i in t.ids(axis=other)][:1], axis=other, inplace=False)
+            if len(ids) >= 2:
+                sub.update_ids(dict(zip(ids, ids[1:] + ids[:1])), axis=ax, inplace=True)       # a rotation of existing labels
+            sub.update_ids({i: 'sib_' + i for i in ids}, axis=ax, inplace=True)               # then fresh labels
+            del sub
     elif pre == 'object_ids':
         # ids held as object-dtype arrays of str (what a pandas Index or an object array hands the constructor; copy,
         # transpose and sort_order keep the dtype): the same content
@@ -481,6 +489,16 @@ def _ids(spec, axis):
 
 
 def gen(rng, tier):
+    # history through a SIBLING table: every 7th ordering case first derives another table from the receiver
+    # (filter, not in place), renames that table's ids on the axis about to be ordered, in place, and drops it;
+    # the receiver is not touched by any of this (two tables must never share an id lookup)
+    for n_, c in enumerate(_gen(rng, tier)):
+        if n_ % 7 == 3 and 'pre' not in c and c['kind'] in ('sort_order', 'sort', 'perm_inverse', 'align_to', 'sort_after'):
+            c = dict(c, pre='sibling_renamed')
+        yield c
+
+
+def _gen(rng, tier):
     quick = tier == 'quick'
     maxlen = 3 if quick else 4
     # 1. every permutation of each axis of small random tables
